@@ -259,6 +259,16 @@ class Decoder:
                         raise NotDecoded("augmented assignment inside a loop body")
                     if lp[0] == "levels":
                         e2[lp[1]] = ("level", None)
+                    if lp[0] == "series":
+                        # the rules name the data by role (`series.values`): write the loop variable as `series`
+                        sv_ = st.target.elts[1] if isinstance(st.target, ast.Tuple) and len(st.target.elts) == 2 else st.target
+                        if isinstance(sv_, ast.Name) and sv_.id != "series":
+                            import copy as _copy
+
+                            class _Ren(ast.NodeTransformer):
+                                def visit_Name(self_, n_):
+                                    return ast.copy_location(ast.Name(id="series", ctx=n_.ctx), n_) if n_.id == sv_.id else n_
+                            body_ = [_Ren().visit(_copy.deepcopy(b_)) for b_ in body_]
                     block(body_, e2, loops + (lp[0],))
                 elif isinstance(st, ast.Expr) and isinstance(st.value, ast.Call):
                     c = st.value
